@@ -38,7 +38,7 @@ PROP = {
                   "stream bounded runs 26 families (endless while/for, loops over growing arrays / dictionaries / strings, doubling, "
                   "squaring big integers, mutual / closure / method recursion, deep value construction followed by printing, "
                   "export, type comparison, storage) in a fresh process each, both engines, under computation limit x memory "
-                  "limit x 120 s wall clock x 12 GB address space; violation = no stop within the bound, internal error, escaped "
+                  "limit x a load-calibrated wall-clock bound (>= 240 s, 40x a timed reference run scaled by the limit) x 12 GB address space; violation = no stop within the bound, internal error, escaped "
                   "panic or crash; depth programs at limit-3..limit+5 under default and configured limits in both engines against "
                   "the model.",
     "level_note": "Partial: that the real evaluators are instances of the disciplined machine is established only for the listed "
